@@ -107,7 +107,7 @@ def build_harness(tags="verif", race=False, overlay=None):
     shutil.copy(os.path.join(REPO, "go.sum"), os.path.join(HARNESS, "go.sum"))
     if REPO != "/repo":  # agent workspaces build against their own worktree
         sh(["go", "mod", "edit", "-replace", "github.com/go-python/gpython=" + REPO], cwd=HARNESS, env=GOENV)
-    out_bin = os.path.join(WORK, "gpyh" + ("-race" if race else ""))
+    out_bin = os.path.join(WORK, "gpyh" + ("-race" if race else "") + ".bin")  # not named plain "gpyh": other sessions' `pkill gpyh` must not hit it
     cmd = ["go", "build", "-tags", tags, "-o", out_bin]
     if race:
         cmd.append("-race")
